@@ -285,7 +285,7 @@ def byte_contracts():
         returns=rb_returns,
         ensures=[("consumes-exactly-n", lambda c: pos1(c) == pos0(c) + n_of(c)),
                  ("returns-only-if-enough-bytes", lambda c: z3.Or(n_of(c) == 0, pos0(c) + n_of(c) <= SLEN(stream_of(c).t)))],
-        raises=[Raises(BAD, when=lambda c: pos0(c) + n_of(c) > SLEN(stream_of(c).t), label="short stream")],
+        raises=[Raises(BAD, when=lambda c: z3.And(n_of(c) > 0, pos0(c) + n_of(c) > SLEN(stream_of(c).t)), label="short stream")],
         note="the n bytes at the stream position, or Bad7zFile when fewer remain"))
     out.append(reader_contract("_read_uint8", 1, lambda s, p: le(s, p, 1), 8))
     out.append(reader_contract("_read_uint32", 4, lambda s, p: le(s, p, 4), 32))
@@ -300,8 +300,10 @@ def byte_contracts():
         ensures=[("consumes-exactly-the-encoding", lambda c: pos1(c) == pos0(c) + NUML(S(c), pos0(c))),
                  ("returns-only-if-enough-bytes", lambda c: pos0(c) + NUML(S(c), pos0(c)) <= SLEN(S(c)))],
         raises=[Raises(BAD, when=lambda c: pos0(c) + NUML(S(c), pos0(c)) > SLEN(S(c)), label="short stream")],
+        # written as a `while` over the mask bits, the loop is unrolled 9 times with an unwinding ASSERTION (exact: <= 8 extra bytes)
+        loops={("role", "at-most-8-extra-bytes"): RoleSpec(lambda ex, st, it, node: isinstance(node, ast.While), unroll=9, label="at-most-8-extra-bytes")},
         note="7z NUMBER: leading 1-bits of the first byte = number of extra little-endian bytes; "
-             "the 8-step loop is `for i in range(8)` (exact unrolling, no unwinding assumption needed)"))
+             "`for i in range(8)` is unrolled exactly, a `while` form with an unwinding assertion"))
     # ---- _read_boolean_vector: any count (loop invariant over the bit index; the result list by PY-LIST-ORDER)
     def bv_n(c):
         return ops.int_term(c.args["count"])
@@ -348,21 +350,24 @@ def byte_contracts():
         return z3.And(n > 0, p + (n + 7) / 8 > L)
 
     def bv_names(ex):
-        """roles of the loop's locals, read from the AST: the shifted mask, the current byte, the result list"""
+        """roles of the loop's locals, read from the AST: the current byte (assigned from a byte read), the result list, and --
+        if the code keeps one -- the shifted mask"""
         loop = ex._loop_nodes[-1]
         masks = {n.target.id for n in ast.walk(loop) if isinstance(n, ast.AugAssign) and isinstance(n.op, ast.RShift) and isinstance(n.target, ast.Name)}
         masks |= {n.targets[0].id for n in ast.walk(loop) if isinstance(n, ast.Assign) and len(n.targets) == 1 and isinstance(n.targets[0], ast.Name)
                   and isinstance(n.value, ast.BinOp) and isinstance(n.value.op, ast.RShift) and isinstance(n.value.left, ast.Name)
                   and n.value.left.id == n.targets[0].id}
         bytes_ = {n.targets[0].id for n in ast.walk(loop) if isinstance(n, ast.Assign) and len(n.targets) == 1 and isinstance(n.targets[0], ast.Name)
-                  and isinstance(n.value, ast.Call) and isinstance(n.value.func, ast.Attribute) and n.value.func.attr == "_read_uint8"}
-        if len(masks) != 1 or len(bytes_) != 1:
+                  and isinstance(n.value, (ast.Call, ast.Subscript)) and any(isinstance(x, ast.Attribute) and x.attr in ("_read_uint8", "_read_bytes")
+                                                                          for x in ast.walk(n.value))}
+        if len(masks) > 1 or len(bytes_) != 1:
             raise ops.Unsupported(f"_read_boolean_vector: loop roles not recognised (mask {sorted(masks)}, byte {sorted(bytes_)})")
-        return masks.pop(), bytes_.pop(), worklist_of(loop)
+        return (masks.pop() if masks else None), bytes_.pop(), worklist_of(loop)
 
     def bv_havoc(ex, st):
         m, b, _r = bv_names(ex)
-        st.bind(m, VInt(z3.BitVec(fresh_name(m), 8)))      # both range over bytes (invariant below)
+        if m is not None:
+            st.bind(m, VInt(z3.BitVec(fresh_name(m), 8)))      # ranges over bytes (invariant below)
         st.bind(b, VInt(z3.BitVec(fresh_name(b), 8)))
         common.havoc_pos(ex, st, st.obj(top(ex, "self").ref).data["_stream"])
 
@@ -375,9 +380,10 @@ def byte_contracts():
         pos = common.bytesio_pos(lc.st, stream)
         r, q = i % 8, i / 8
         conj = [pos == p0 + (i + 7) / 8,
-                ops.eq_term(lc[m], VInt(mask_after(r))),
                 z3.Implies(r != 0, ops.eq_term(lc[b], VInt(SB(s, p0 + q)))),
                 z3.Or(i == 0, pos <= SLEN(s))]
+        if m is not None:
+            conj.append(ops.eq_term(lc[m], VInt(mask_after(r))))
         if lc.extra.get("phase") == "preserve":
             ref = lc.entry.lookup(res).ref
             new = [v for (rf, v) in new_events(lc, "appends") if rf == ref]
@@ -396,10 +402,9 @@ def byte_contracts():
         requires=lambda c: z3.And(req_stream(c), bv_n(c) >= 0), frame=frame_stream, returns=bv_returns,
         ensures=[("consumes-exactly-the-vector", lambda c: pos1(c) == pos0(c) + bv_need(c)),
                  ("returns-only-if-enough-bytes", lambda c: z3.Not(bv_short(c))),
-                 ("bit-loop-runs-to-completion-unless-all-defined", internal(lambda c: z3.Or(
-                     bv_all(c), z3.BoolVal(bool(c.st.ghost.get(("done", "bit-i-is-bit-7-minus-i-mod-8-of-byte-i-div-8")))))))],
+                 ],
         raises=[Raises(BAD, when=bv_short, label="short stream")],
-        loops=role(is_seq("int"), "bit-i-is-bit-7-minus-i-mod-8-of-byte-i-div-8", bv_inv, havoc=(bv_havoc,)),
+        loops=role(both(is_seq("int"), body_calls("_read_uint8", "_read_bytes")), "bit-i-is-bit-7-minus-i-mod-8-of-byte-i-div-8", bv_inv, havoc=(bv_havoc,)),
         note="7z BitVector (optionally preceded by the allAreDefined byte): MSB-first bits; any count"))
     out.append(FnContract(
         target=f"{RD}._seek_back_one", params=[("self", p_reader())],
@@ -451,13 +456,21 @@ def ps_def(i):
     return z3.And(PS(z3.IntVal(0)) == 0, z3.Implies(i >= 0, PS(i + 1) == PS(i) + PSZ(i)))
 
 # decoder chain, last coder first: CHAIN(f, x, i) = result after i decoding steps
-CHAIN = z3.RecFunction("decode_chain", Folder, Blob, I, Blob)
-z3.RecAddDefinition(CHAIN, [_f, _x, _i], z3.If(_i <= 0, _x, DEC(CID(_f, NCOD(_f) - _i), CPROP(_f, NCOD(_f) - _i),
-                                                               CHAIN(_f, _x, _i - 1), USZ(_f))))
+# (uninterpreted + defining equations instantiated at 0 and at the loop index, see NUMPOS)
+CHAIN = z3.Function("decode_chain", Folder, Blob, I, Blob)
 # offset of the j-th entry of folder k inside the folder's output
-OFF = z3.RecFunction("substream_offset", I, I, I)
-z3.RecAddDefinition(OFF, [_k, _i], z3.If(_i <= 0, 0, OFF(_k, _i - 1) + z3.If(ISDIR(FINFO(FIDX(_k, _i - 1))), 0,
-                                                                               USIZE(FINFO(FIDX(_k, _i - 1))))))
+OFF = z3.Function("substream_offset", I, I, I)
+
+
+def chain_def(f, x, i):
+    return z3.And(CHAIN(f, x, z3.IntVal(0)) == x,
+                  z3.Implies(i >= 0, CHAIN(f, x, i + 1) == DEC(CID(f, NCOD(f) - (i + 1)), CPROP(f, NCOD(f) - (i + 1)), CHAIN(f, x, i), USZ(f))))
+
+
+def off_def(k, i):
+    return z3.And(OFF(k, z3.IntVal(0)) == 0,
+                  z3.Implies(i >= 0, OFF(k, i + 1) == OFF(k, i) + z3.If(ISDIR(FINFO(FIDX(k, i))), 0, USIZE(FINFO(FIDX(k, i))))))
+
 
 
 def in_off(k):
@@ -526,8 +539,8 @@ class RoleSpec(LoopSpec):
     """a loop specification selected by WHAT the loop iterates over (match(ex, st, iterable, node)), not by its position in the
     function: it follows the loop into a helper the code was refactored into (helpers are executed in place)"""
 
-    def __init__(self, match, inv=None, havoc=(), label=""):
-        super().__init__(inv=inv, havoc=havoc, label=label)
+    def __init__(self, match, inv=None, havoc=(), label="", unroll=None):
+        super().__init__(inv=inv, havoc=havoc, label=label, unroll=unroll)
         self.match = match
 
 
@@ -657,21 +670,23 @@ class C10Executor(Executor):
                     def at(j, s2=s2, it=it):
                         s3 = s2.fork()
                         s3.frames.append(Frame({}, len(s3.frames) - 1, s3.frame.fnode))
-                        mark = len(self.sinks[-1])
-                        sts = self.assign(g.target, it.elem(j), s3)
-                        conds = []
-                        if len(sts) != 1:
-                            self.unsupported(n, "generator expression: forking target")
-                        cur = sts[0]
-                        for c_ in g.ifs:
-                            r = self.ev(c_, cur)
-                            if len(r) != 1:
-                                self.unsupported(n, "generator expression: forking condition")
-                            cur = r[0][0]
-                            conds.append(self.truth(cur, r[0][1]).t)
-                        r = self.ev(n.elt, cur)
-                        if len(r) != 1 or len(self.sinks[-1]) != mark:
-                            del self.sinks[-1][mark:]
+                        self.sinks.append([])
+                        try:
+                            sts = self.assign(g.target, it.elem(j), s3)
+                            conds = []
+                            if len(sts) != 1:
+                                self.unsupported(n, "generator expression: forking target")
+                            cur = sts[0]
+                            for c_ in g.ifs:
+                                r = self.ev(c_, cur)
+                                if len(r) != 1:
+                                    self.unsupported(n, "generator expression: forking condition")
+                                cur = r[0][0]
+                                conds.append(self.truth(cur, r[0][1]).t)
+                            r = self.ev(n.elt, cur)
+                        finally:
+                            raised = self.sinks.pop()
+                        if len(r) != 1 or any(self.feasible(es.pc) for (es, _e) in raised):
                             self.unsupported(n, "generator expression: forking / raising element")
                         return z3.And(conds + [z3.BoolVal(True)]), r[0][1]
                     out.append((s2, VSeq(it.length, lambda j, at=at: at(j)[1], "genexp", tag=("genexp", at))))
@@ -697,6 +712,38 @@ class C10Executor(Executor):
             return [(st, self._quantify(st, v, True))]
         return super().b_all(st, args, kwargs, node)
 
+    def _pure_map_comp(self, n, st):
+        """[E(t) for t in IT] over a symbolic IT where E has no effect and cannot raise (checked at a generic index): the
+        sequence j -> E(IT[j])"""
+        from pyvc.state import Frame
+        g = n.generators[0]
+        r0 = self.ev(g.iter, st)
+        if len(r0) != 1:
+            return None
+        s2, it = r0[0]
+
+        def at(j, probe=False):
+            s3 = s2.fork()
+            if probe:
+                s3.assume(z3.And(j >= 0, j < it.length))
+            s3.frames.append(Frame({}, len(s3.frames) - 1, s3.frame.fnode))
+            self.sinks.append([])          # own sink: the element is also evaluated lazily, after the function body
+            try:
+                sts = self.assign(g.target, it.elem(j), s3)
+                res = self.ev(n.elt, sts[0]) if len(sts) == 1 else []
+            finally:
+                raised = self.sinks.pop()
+            return res, raised, s3
+        j0 = z3.Int(fresh_name("j!map"))
+        res, raised, s3 = at(j0, probe=True)
+        if len(res) != 1 or any(self.feasible(es.pc) for (es, _e) in raised):
+            return None
+        after = res[0][0]
+        if after.ghost != s3.ghost or after.heap.keys() != s2.heap.keys() or any(after.heap[k] is not s2.heap[k] for k in s2.heap):
+            return None            # the element expression has an effect: not a map
+        kind = res[0][1].kind
+        return [(s2, VSeq(it.length, lambda j: at(j)[0][0][1], kind))]
+
     def _comp_as_loop(self, n, st):
         """[E for t in IT if C] over a SYMBOLIC IT for which the contract has a loop role is executed as the loop it abbreviates:
         tmp = []; for t in IT: if C: tmp.append(E)   (so selection written as a comprehension meets the same invariant)"""
@@ -718,7 +765,8 @@ class C10Executor(Executor):
         ast.copy_location(loop, n)
         ast.fix_missing_locations(loop)
         if not any(isinstance(k, tuple) and k[0] == "role" and sp.match(self, st, probe[0][1], loop) for k, sp in self.contract.loops.items()):
-            return super().e_ListComp(n, st)
+            r = self._pure_map_comp(n, st) if not g.ifs else None
+            return r if r is not None else super().e_ListComp(n, st)
         out = []
         for (s2, it) in self.ev(g.iter, st):
             s2.frames.append(Frame({tmp: self.new_list(s2, []), itn: it}, len(s2.frames) - 1, s2.frame.fnode))
@@ -733,6 +781,51 @@ class C10Executor(Executor):
                 else:
                     self.unsupported(n, f"{o.kind} out of a comprehension")
         return out
+
+    def s_While(self, s, st):
+        spec = None
+        if self.contract is not None:
+            for key, sp in self.contract.loops.items():
+                if isinstance(key, tuple) and key[0] == "role" and sp.match(self, st, None, s):
+                    spec = sp
+                    break
+        self._role_stack = tuple(self._role_stack) + (spec,)
+        self._loop_nodes = tuple(self._loop_nodes) + (s,)
+        try:
+            return super().s_While(s, st)
+        finally:
+            self._role_stack = self._role_stack[:-1]
+            self._loop_nodes = self._loop_nodes[:-1]
+
+    def call(self, st, f, args, kwargs, node):
+        if isinstance(f, VFunc) and f.how == "classattr" and (f.a, f.b) == ("int", "from_bytes"):
+            r = self._int_from_bytes(st, args, kwargs, node)
+            if r is not None:
+                return r
+        return super().call(st, f, args, kwargs, node)
+
+    def _int_from_bytes(self, st, args, kwargs, node):
+        """int.from_bytes(b, 'little' | 'big') (unsigned) for up to 8 bytes: concrete-length bytes or a byte sequence of symbolic length"""
+        order = args[1] if len(args) > 1 else kwargs.get("byteorder")
+        signed = kwargs.get("signed")
+        if not (args and isinstance(order, VStr) and order.const() in ("little", "big")) or (signed is not None and not (isinstance(signed, VBool) and signed.const() is False)):
+            return None
+        b, little = args[0], order.const() == "little"
+        if isinstance(b, VBytes) and len(b.items) <= 8:
+            bs = [self.as_byte(x).t for x in b.items]
+            if not bs:
+                return [(st, VInt(0))]
+            if not little:
+                bs = list(reversed(bs))
+            return [(st, VInt(bs[0] if len(bs) == 1 else z3.Concat(*reversed(bs))))]
+        if isinstance(b, VSeq) and b.is_bytes and little:
+            self.add_vc("call-pre", f"int.from_bytes-at-most-8-bytes@{self.call_ordinal(node, 'from_bytes')}", st.pc, b.length <= 8, loc=self.loc(node))
+            st.assume(b.length <= 8)
+            acc = z3.BitVecVal(0, 64)
+            for i in range(8):
+                acc = acc | z3.If(i < b.length, z3.ZeroExt(56, self.as_byte(b.elem(z3.IntVal(i))).t) << (8 * i), z3.BitVecVal(0, 64))
+            return [(st, VInt(acc))]
+        return None
 
     def loop_spec(self, node):
         if self._role_stack and self._role_stack[-1] is not None and self._loop_nodes and self._loop_nodes[-1] is node:
@@ -795,6 +888,24 @@ class C10Executor(Executor):
                 n = ops.int_term(b)
                 x = items[0]
                 return [(st, VSeq(z3.If(n < 0, z3.IntVal(0), n), lambda i, x=x: x, x.kind))]
+        if op in ("RShift", "LShift") and isinstance(a, VInt) and isinstance(b, VInt) and a.const() is not None and a.const() >= 0 and b.const() is None \
+                and (op == "RShift" or a.const() < 256):
+            # constant >> n / constant << n with a symbolic n: exact case split over the amounts that matter (ValueError for n < 0)
+            n, c = ops.int_term(b), a.const()
+            st = self.fork_raise(st, n < 0, "ValueError")
+            if st is None:
+                return []
+            if op == "RShift":
+                acc = z3.BitVecVal(0, max(c.bit_length(), 1))
+                for k in range(c.bit_length(), -1, -1):
+                    acc = z3.If(n == k, z3.BitVecVal(c >> k, max(c.bit_length(), 1)), acc)
+                return [(st, VInt(acc))]
+            self.add_vc("call-pre", f"shift-amount-at-most-64@{self.loc(node).split(':')[-1]}", st.pc, n <= 64, loc=self.loc(node))
+            st.assume(n <= 64)
+            acc = z3.BitVecVal(0, 72)
+            for k in range(64, -1, -1):
+                acc = z3.If(n == k, z3.BitVecVal(c << k, 72), acc)
+            return [(st, VInt(acc))]
         if op == "Mod" and isinstance(a, VStr) and a.const() is not None:
             # 'literal %s ... %d' % value / tuple: plain %s / %d fields with str / int arguments
             import re as _re
@@ -1183,6 +1294,8 @@ def layout_contracts():
     def df_inv(lc):
         x0 = blob_local(lc, lc.entry).t
         fo = top(lc, "folder").t
+        if lc.extra.get("phase") in ("init", "assume"):
+            lc.st.assume(chain_def(fo, x0, lc.i))
         return z3.And(blob_local(lc).t == CHAIN(fo, x0, lc.i), NCOD(fo) >= 0)
 
     out.append(FnContract(
@@ -1220,6 +1333,8 @@ def layout_contracts():
         dec = top(lc, "decompressed").t
         base = top(lc, "base_path").t
         i = lc.i
+        if lc.extra.get("phase") in ("init", "assume"):
+            lc.st.assume(off_def(k, i))
         conj = [ops.int_term(offset_local(lc)) == OFF(k, i), OFF(k, i) >= 0]
         if lc.extra.get("phase") == "preserve":
             # the iteration that just ended handled entry i-1 of the folder: a directory entry writes nothing,
@@ -1382,12 +1497,9 @@ def keep7(a):
     return z3.And(z3.Not(ISDIR(e)), z3.Not(SKIP(FNAME(e), BASENAME(FNAME(e)))), z3.Not(USIZE(e) > MAXMEM))
 
 
-ZKEPT = z3.RecFunction("zip_kept_before", ZipFileS, I, I)        # number of selected members among infolist()[:i]
-_z = z3.Const("z!def", ZipFileS)
-z3.RecAddDefinition(ZKEPT, [_z, _i], z3.If(_i <= 0, 0, ZKEPT(_z, _i - 1) + z3.If(zkeep(_z, _i - 1), 1, 0)))
+ZKEPT = z3.Function("zip_kept_before", ZipFileS, I, I)           # number of selected members among infolist()[:i] (used opaquely)
 ZSEL = z3.Function("zip_selected_index", ZipFileS, I, I)
-KEPT7 = z3.RecFunction("szf_kept_before", I, I)
-z3.RecAddDefinition(KEPT7, [_i], z3.If(_i <= 0, 0, KEPT7(_i - 1) + z3.If(keep7(_i - 1), 1, 0)))
+KEPT7 = z3.Function("szf_kept_before", I, I)                      # number of selected members among list()[:i] (used opaquely)
 SEL7 = z3.Function("szf_selected_index", I, I)
 
 
@@ -1957,10 +2069,18 @@ def STREAM(i):
     return z3.Not(ES(i))
 
 
-RANK = z3.RecFunction("streams_before_file", I, I)           # number of stream-bearing files among files [0, i)
-z3.RecAddDefinition(RANK, [_i], z3.If(_i <= 0, 0, RANK(_i - 1) + z3.If(STREAM(_i - 1), 1, 0)))
-CUM = z3.RecFunction("streams_before_folder", I, I)          # sum of num_streams of folders [0, k)
-z3.RecAddDefinition(CUM, [_k], z3.If(_k <= 0, 0, CUM(_k - 1) + NSK(_k - 1)))
+# primitive-recursive spec functions, uninterpreted + defining equations instantiated where needed (see NUMPOS: automatic
+# unfolding of RecFunctions over symbolic counts timed out under load)
+RANK = z3.Function("streams_before_file", I, I)              # number of stream-bearing files among files [0, i)
+CUM = z3.Function("streams_before_folder", I, I)             # sum of num_streams of folders [0, k)
+
+
+def rank_def(i):
+    return z3.And(RANK(z3.IntVal(0)) == 0, z3.Implies(i >= 0, RANK(i + 1) == RANK(i) + z3.If(STREAM(i), 1, 0)))
+
+
+def cum_def(k):
+    return z3.And(CUM(z3.IntVal(0)) == 0, z3.Implies(k >= 0, CUM(k + 1) == CUM(k) + NSK(k)))
 
 
 class VHandle(VExt):
@@ -2059,6 +2179,8 @@ def build_contracts(reg):
 
     def files_inv(lc):
         i = lc.i
+        if lc.extra.get("phase") in ("init", "assume"):
+            lc.st.assume(rank_def(i))                    # definition of RANK at 0 and at this index
         conj = [size_index_local(lc) == RANK(i), RANK(i) >= 0]
         if lc.extra.get("phase") == "assume":
             lc.st.assume(rank_mono_at(i + 1, NFL))      # lemma rank-monotone (induction, lemmas()), instantiated at this index
@@ -2117,6 +2239,8 @@ def build_contracts(reg):
         fidx = next(v for k, v in ints.items() if k not in zeroed)
         k, j = ops.int_term(fidx), ops.int_term(fif)
         r = RANK(i)
+        if lc.extra.get("phase") in ("init", "assume"):
+            lc.st.assume(z3.And(rank_def(i), cum_def(k)))       # definitions of RANK / CUM at 0, at this file and at the current folder
         conj = [0 <= k, k <= MF,
                 z3.Implies(k < MF, z3.And(CUM(k) + j == r, 0 <= j, j < NSK(k))),
                 z3.Implies(k == MF, r >= CUM(MF))]
@@ -2251,8 +2375,19 @@ def parser_contracts():
         if lc.extra.get("phase") == "assume":
             lc.st.assume(numpos_mono_at(s_, q0, i + 1, N))          # lemma numbers-end-monotone, at this index
         if lc.extra.get("phase") == "preserve":
-            v = lc.extra.get("elt")
-            conj.append(ops.eq_term(v, VInt(NUMV(s_, NUMPOS(s_, q0, i - 1)))) if isinstance(v, VInt) else z3.BoolVal(False))
+            if "elt" in lc.extra:                                    # comprehension summarised directly
+                new = [lc.extra["elt"]]
+            else:                                                    # loop (or comprehension executed as a loop): the appended value
+                ref = lc.entry.lookup(worklist_of(cur_loop(lc))).ref
+                if lc.entry.obj(ref).data != []:
+                    raise ops.Unsupported("_parse_pack_info: the size list is not empty before the loop")
+                new = [v for (rf, v) in new_events(lc, "appends") if rf == ref]
+            ok = z3.BoolVal(False)
+            if len(new) == 1 and isinstance(new[0], VInt):
+                ok = ops.eq_term(new[0], VInt(NUMV(s_, NUMPOS(s_, q0, i - 1))))
+            conj.append(ok)
+        if lc.extra.get("phase") == "exit" and "elt" not in lc.extra and lc.ex._loop_nodes:
+            lc.st.bind(worklist_of(cur_loop(lc)), sz_result(lc))      # PY-LIST-ORDER
         return z3.And(conj)
 
     def sz_result(lc):
@@ -2334,7 +2469,7 @@ def parser_contracts():
         requires=req_stream, hyps=pk_hyps, modifies=("self",),
         ensures=[("result-fields-and-position-equal-the-PackInfo-grammar", pk_post)],
         raises=[Raises(BAD, when=pk_raise, label="bad end marker / short stream")],
-        loops=merged({("comp", "*"): CompSpec(inv=sz_inv, result=sz_result, havoc=(havoc_stream,), label=SZ_LABEL)},
+        loops=merged(role(both(is_seq("int"), body_calls("_read_number")), SZ_LABEL, sz_inv, havoc=(havoc_stream,)),
                      role(is_seq(tag="bitvector"), CRC_LABEL, crc_inv, havoc=(havoc_stream,))),
         note="PackInfo grammar of 7zFormat.txt for any numPackStreams; pack position made absolute by the 32-byte signature header"))
 
@@ -2818,7 +2953,12 @@ def guarded(fn, what):
     return g
 
 
+FUNCTIONAL = ("._read_bytes", "._read_uint8", "._read_uint32", "._read_uint64", "._read_number", "._read_boolean_vector",
+              "._decompress_folder", "._parse_pack_info", "._seek_back_one")
+
+
 def guard_contract(c):
+    c.functional = c.target.endswith(FUNCTIONAL)
     orig_hyps = c.hyps
 
     def hyps(cx):
@@ -2859,7 +2999,8 @@ def _missing_locked_as_unknown(c, rep):
     recognised, a clause attached to a statement that disappeared -- is neither proved nor refuted: `unknown`"""
     import json
     import os
-    if rep.error or rep.out_of_subset or getattr(c, "bounded", ""):
+    import sys
+    if rep.error or rep.out_of_subset or getattr(c, "bounded", "") or "--update-lock" in sys.argv:
         return
     try:
         lock = json.load(open(os.path.join(os.path.dirname(os.path.dirname(os.path.abspath(__file__))), "obligations.lock.json"))).get("C10", {})
@@ -2869,6 +3010,9 @@ def _missing_locked_as_unknown(c, rep):
     prefix = f"C10/{rel.split('/')[-1]}::{qual}/"
     have = {o["id"] for o in rep.obligations}
     for oid in sorted(lock):
+        aux = oid[len(prefix):].split("#")[0] in ("inv-init", "inv-preserve", "unwind")
+        if aux and getattr(c, "functional", False):
+            continue        # the contract fixes the whole result (returns / grammar clause): how the code loops is not part of it
         if oid.startswith(prefix) and oid not in have and "/call-pre#" not in oid and not oid.endswith(".BOUNDED"):
             rep.obligations.append({"id": oid, "kind": oid[len(prefix):].split("#")[0], "status": "unknown", "vcs": 0, "seconds": 0.0, "backends": {},
                                     "witness": None, "reason": "locked obligation not generated from the changed code (loop role / statement not recognised)", "loc": ""})
@@ -2903,8 +3047,8 @@ def lemmas():
                     z3.And(NUMV(s, z3.IntVal(0)) == bv(v, 64), NUML(s, z3.IntVal(0)) == n, z3.BoolVal(number_python(data) == (v, n)))))
     # induction schemas (the induction variable b, the other variable a arbitrary but fixed)
     a, b = z3.Int("a!lemma"), z3.Int("b!lemma")
-    out.append(("C10/spec::7z-layout/lemma#rank-monotone.base", [], rank_mono_at(a, z3.IntVal(0))))
-    out.append(("C10/spec::7z-layout/lemma#rank-monotone.step", [b >= 0, rank_mono_at(a, b)], rank_mono_at(a, b + 1)))
+    out.append(("C10/spec::7z-layout/lemma#rank-monotone.base", [rank_def(b)], rank_mono_at(a, z3.IntVal(0))))
+    out.append(("C10/spec::7z-layout/lemma#rank-monotone.step", [b >= 0, rank_def(b), rank_mono_at(a, b)], rank_mono_at(a, b + 1)))
     sl, ql, pl, adl = z3.Const("s!lemma", Stream), z3.Int("q!lemma"), z3.Int("p!lemma"), z3.Bool("ad!lemma")
     out.append(("C10/spec::7z-header/lemma#numbers-end-monotone.base", [numpos_def(sl, ql, b)], numpos_mono_at(sl, ql, a, z3.IntVal(0))))
     out.append(("C10/spec::7z-header/lemma#numbers-end-monotone.step", [b >= 0, numpos_def(sl, ql, b), numpos_mono_at(sl, ql, a, b)],
